@@ -33,6 +33,13 @@ def run(ctx):
         sampled4 = min(len(c4), 5000)
         picked = picked + c4[:sampled4]      # 4 concurrent requests: a VERIF_SEED sample of the 65k histories
     traces, results = lc.run_sharded(ctx, "c10", picked, shards=12 if q else 14)
+    # the same histories over the multiplexed protocols: HTTP/2 (an exchange fails by RST_STREAM) and bolt (xprotocol
+    # multiplex pool; the upstream-reset ending is played as a plain answer there)
+    for proto, k in (("http2", 120 if q else 1500), ("bolt", 120 if q else 1500)):
+        sub = rng.sample(cases, min(len(cases), k))
+        t2, _ = lc.run_sharded(ctx, "c10", sub, shards=8 if q else 14, extra_args=["-proto", proto], tag="_" + proto)
+        traces += t2
+        ctx.cov.setdefault("protocols", {"http1": len(picked)})[proto] = len(sub)
     # TCP proxy part: connection accounting of the stream proxy over open/close histories
     rawt = os.path.join(ctx.tmp, "tcpops.jsonl")
     ctx.add_tlc(vlib.run_tlc(ctx, "cluster", "BreakerOps", "BreakerTcpOps.cfg", workers=1, cases_to=rawt))
@@ -81,7 +88,8 @@ def run(ctx):
         thr = "limited" if (runev or {}).get("maxreq", 0) or (runev or {}).get("maxretry", 0) else "unlimited"
         if kind.startswith("retries"):
             thr = "max_retries=%s" % (runev or {}).get("maxretry")
-        sig = "C10:%s:%s" % (kind, thr)
+        proto = (runev or {}).get("proto", "http1")
+        sig = "C10:%s%s:%s" % ("" if proto == "http1" else proto + ":", kind, thr)
         if kind.startswith("tcp-"):
             sig = "C10:%s:%s" % (kind, e.get("cluster", ""))
         end = next((j for j in range(line, len(evs) + 1) if evs[j - 1]["ev"] in ("run", "trun") and j > line), min(len(evs), line + 30))
@@ -97,6 +105,6 @@ def run(ctx):
                        "reset, global timeout, client disconnect) from BreakerOps.tla (%d histories; quick: %d chosen by VERIF_SEED), "
                        "rotated over clusters with (max_requests,max_retries) in {(0,0),(2,0),(2,1),(1,1)}; books sampled after every "
                        "operation" % (len(cases), len(picked)))
-    ctx.assumptions += ["HTTP/1 pools; the `connections` resource is never incremented by any pool (limits on connections are "
+    ctx.assumptions += ["HTTP/1, HTTP/2 and bolt (multiplex) pools; the `connections` resource is never incremented by any pool (limits on connections are "
                         "enforced on the pools' own counts), so only its non-negativity is checked",
                         "a sample waits up to 600 ms for the books to settle before it is taken"]
